@@ -116,6 +116,29 @@ Example C11_unhashable_key_refused :
     = OK (false, GVMap [(GVArray [GVLeaf (VInt 1)], GVLeaf (VInt 7))]).
 Proof. split; vm_compute; reflexivity. Qed.
 
+(* struct <-> UDT field lookup (fix 86b2b2c): a `cassandra` tag takes precedence over the Go field name, wherever the fields are declared:
+   struct{Name string `cassandra:"full_name"`; Nick string `cassandra:"name"`} denotes the UDT value <name: Nick, full_name: Name> and is
+   restored by Decode (before the fix Name was written to both CQL fields and Nick was lost). *)
+Definition c11_person : cqltype := TUdt ["name"; "full_name"]%string [TScalar SVarchar; TScalar SVarchar].
+Definition c11_person_gty : gty := GStruct [("Name", "full_name", GLeaf SVarchar LVal); ("Nick", "name", GLeaf SVarchar LVal)]%string.
+Example C11_tag_precedence :
+  gabs c11_person (Some (c11_person_gty, GVStruct [GVLeaf (VBytes [74]); GVLeaf (VBytes [106])])) = Some (VUdt [VBytes [106]; VBytes [74]]) /\
+  match g_encode 4 c11_person (Some (c11_person_gty, GVStruct [GVLeaf (VBytes [74]); GVLeaf (VBytes [106])])) with
+  | OK o => g_decode 4 c11_person c11_person_gty (gzero c11_person_gty) o
+  | _ => ERR
+  end = OK (false, GVStruct [GVLeaf (VBytes [74]); GVLeaf (VBytes [106])]).
+Proof. split; vm_compute; reflexivity. Qed.
+
+(* destinations that are pointers to an interface type other than interface{} (fix e96a38f): a defined empty interface (type V interface{},
+   driver.Value) receives the preferred Go value, an interface with methods (fmt.Stringer) is refused - both covered by
+   C11_typed_decode_no_panic; NULL zeroes either. *)
+Example C11_named_interface_destinations :
+  g_decode 4 (TTuple [TScalar SInt]) (GIfaceN true) GVNilIface (Some (hx "0000000400000001")) = ERR /\
+  g_decode 4 (TTuple [TScalar SInt]) (GIfaceN false) GVNilIface (Some (hx "0000000400000001"))
+    = OK (false, GVIface (GSlice GIface) (GVSlice [GVIface (GLeaf SInt LVal) (GVLeaf (VInt 1))])) /\
+  g_decode 4 (TList (TScalar SInt)) (GIfaceN true) (GVIface (GLeaf SInt LVal) (GVLeaf (VInt 5))) None = OK (true, GVNilIface).
+Proof. repeat split; vm_compute; reflexivity. Qed.
+
 (* the known finding, in the model: a NaN key is not found again by the map extractor, its value is encoded as NULL *)
 Example C11_nan_key_loses_value :
   gabs (TMap (TScalar SDouble) (TScalar SInt)) (Some (GMap (GLeaf SDouble LVal) (GLeaf SInt LVal), GVMap [(GVLeaf (VFloat 9221120237041090560), GVLeaf (VInt 5))]))
